@@ -7,7 +7,7 @@ EXTENDS PathOps, TLC
 CONSTANTS MaxSegs, MaxOps
 VARIABLES word, p0, geo, hist
 vars == <<word, p0, geo, hist>>
-Kinds == {"M", "L", "Q", "C", "A", "Z", "R"}
+Kinds == {"M", "L", "Q", "C", "A", "E", "Z", "R"}
 
 RECURSIVE BuildFrom(_, _, _)
 BuildFrom(b, w, i) == IF i > Len(w) THEN b ELSE BuildFrom(BuildStep(b, w[i]), w, i + 1)
